@@ -84,6 +84,11 @@ CHECKS["C14"] = dict(
     text="Exhaustive over all 2-language sets with <= 2 cues per language on a 4-point grid (quick) / a 20 000-case sample of the 3-language space on a 5-point grid (thorough; the design model is checked on all 475 000), empty first language included; every set written by SAMIWriter and DFXPWriter, scanned independently and read back; language options on a sample; 48 DFXP documents with xml:lang on div / tt / absent under two configured defaults in child processes; SAMI reading with languages declared by class or lang attribute; random 1-4 language sets beyond. Two open known findings (SAMI lang attribute truncation, prefix-matching selector).",
     design="4 C14")
 
+CHECKS["C05"] = dict(
+    technique="TLA+ spec Scc608.tla: a reference CEA-608 decoder (two 15x32 memories, cursor, pen, extended-replaces-stand-in, backspace, mid-row cell, End-Of-Caption swap) model-checked on all raw command sequences (MC_Scc608) and on structured caption loads (Gen_Scc); every recorded SCCReader result is judged by TLC against the reference run on the abstract program (Trace_Scc)",
+    text="Exhaustive within the bound: all raw command sequences to depth 4 (quick) / 5 (thorough) on the reference (sanity), all 960 cursor addresses, all 176 character codes in first/middle/last position, all 5600 structured caption loads in both doubling modes; random programs of 1-3 captions x 1-4 rows beyond. Per caption TLC compares lines (mid-row cell = optional space), italic flag per character, balance and the (row, column) -> percentage position. One open known finding (position tracker surviving End-Of-Caption) is re-validated with exactly that deviation enabled.",
+    design="4 C05")
+
 NOT_YET = {}
 
 
